@@ -180,6 +180,8 @@ class Reproduce(Stream):
         case["subset"] = sorted(rng.sample(flat, rng.randint(1, len(flat))))
         case["uncovered"] = rng.choice([None, None, "zz-not-there", "zz-not-there>=1"])
         case["release"] = rng.choice(names)
+        case["release_typed"] = "".join((rng.choice("-_.") if ch in "-_." else (ch.swapcase() if rng.random() < 0.3 else ch)) for ch in case["release"])
+        case["second_solution"] = rng.choice([None, "first", "second"])
         return case
 
     # ------------------------------------------------------------------------------------------
@@ -257,8 +259,15 @@ class Reproduce(Stream):
         sol_c = SolutionRepository(f1)
         sub_ins = _inputs(case, which=set(map(tuple, case["subset"])))
         r_sub = _compile(sub_ins, sol_c)
+        f_sub = None
         if r_sub[0] == "ok":
             out["subset"] = {"outcome": "ok", "pins": _pins(r_sub[1], r_sub[2])}
+            try:
+                f_sub = os.path.join(d, "solution-subset.txt")
+                with open(f_sub, "w") as fh:
+                    fh.write(_write(r_sub[1], r_sub[2], sol_c, sub_ins, case["opts"]))
+            except Exception:
+                f_sub = None
         else:
             out["subset"] = {"outcome": r_sub[0], "detail": r_sub[1]}
         # expected sub-closure, computed on the first graph
@@ -282,13 +291,24 @@ class Reproduce(Stream):
         # (d) release one project
         GL.reset_caches()
         rel = case["release"]
-        sol_u = SolutionRepository(f1, excluded_packages=[rel])
         idx4 = IndexRepo.create(U2)
+        # the stack as the command line builds it: build_repo with one or two solution files (the second one is the
+        # tool's own output for the subset of the roots: same pins) and the released project as the user typed it
+        import req_compile.cmdline as C
+        sols = [f1]
+        if f_sub is not None and case.get("second_solution"):
+            sols = [f_sub, f1] if case["second_solution"] == "first" else [f1, f_sub]
+        os.makedirs(os.path.join(d, "no-links"), exist_ok=True)
+        with contextlib.redirect_stderr(io.StringIO()):
+            stack = C.build_repo(sols, [case.get("release_typed") or rel], [], [], [os.path.join(d, "no-links")], [], os.path.join(d, "w"), no_index=True)
+        stack.repositories = tuple(list(stack.repositories)[:-1] + [idx4])
+        sol_u = stack
+        out["solutions_used"] = len(sols)
         # the front as the loader built it, *before* the exclusion: the model applies `solutionFront` itself
         sol_all = SolutionRepository(f1)
         out["front_all"] = _front_universe(sol_all)
         case4 = dict(case, universe=U2, front=out["front_all"])
-        run4 = SS.Run(case4, repo=MultiRepository(sol_u, idx4))
+        run4 = SS.Run(case4, repo=sol_u)
         out["run4"] = run4.result()
         if run4.outcome == "ok":
             g4, roots4 = run4.graph, run4.roots
@@ -315,7 +335,7 @@ class Reproduce(Stream):
         q2 = SS.model_request(case2, r["run2"])
         case4 = dict(case, universe=_grow(case), front=r["front_all"])
         q4 = SS.model_request(case4, r["run4"])
-        q4["released"] = [GL.norm(case["release"])]
+        q4["released"] = [case.get("release_typed") or case["release"]]
         return {"op": "batch", "reqs": [q2, q4]}
 
     def model_result(self, reply):
@@ -347,6 +367,8 @@ class Reproduce(Stream):
             fl.append("uncovered-root")
         if GL.norm(case["release"]) in r["pins1"]:
             fl.append("released-project-is-pinned")
+        if r.get("solutions_used", 1) > 1:
+            fl.append("two-solution-files")
         up = r.get("upgrade", {})
         if up.get("outcome") == "ok" and up["pins"] != r["pins1"]:
             fl.append("upgrade-changes-something")
